@@ -9,7 +9,7 @@ import time
 from .. import evidence, genfile, genvectors, lpcheck, lprun, pool, ref, rngenv, sweep
 from .. import instances as I
 from ..pool import Tally
-from . import c01, c02, c07, c10
+from . import c01, c02, c05, c07, c10
 
 PID = "C09"
 LEVEL = "model_checking"
@@ -112,6 +112,8 @@ def judge_file(text, a, tally, lp=True):
         sub = Tally()
         c02.judge(ctx, execs, sub)
         c01.judge(ctx, execs, sub)
+        if stab:
+            c05.judge(ctx, execs, sub)      # "a valid matching" under -stab is a stable one
         for v in sub.violations:
             v = dict(v)
             v["fingerprint"] = "lp:" + v["fingerprint"]
